@@ -105,7 +105,7 @@ def periods(ctx: Ctx, thin_days=1):
 
 def gen_lines(ctx: Ctx):
     streams = {}
-    ps = periods(ctx, thin_days=3 if ctx.quick else 1)
+    ps = periods(ctx, thin_days=3)   # regular periods: all; days: every third (quick: of 1890-2110, thorough: of years 1-9999)
     streams["roundtrip"] = [f"rt {f} {s}" for f, s in ps]
     strs = []
     for f, s in ps[:: (3 if ctx.quick else 1)]:
@@ -116,7 +116,7 @@ def gen_lines(ctx: Ctx):
     streams["strings"] = strs
     # frequency conversion: all ordered pairs, all positions
     conv = []
-    thin = 7 if ctx.quick else 2
+    thin = 7 if ctx.quick else 11
     for f, s in ps:
         if f == "I":
             continue
@@ -182,7 +182,7 @@ def in_calendar(f, s):
 
 def oracle(ctx: Ctx, scale=1):
     """the property statement evaluated on the implementation with datetime as the only reference"""
-    ps = periods(ctx, thin_days=(11 if ctx.quick else 3) if scale == 1 else 1)
+    ps = periods(ctx, thin_days=(11 if ctx.quick else 29) if scale == 1 else 1)
     ns = {"yy": ir.yy, "hh": ir.hh, "qq": ir.qq, "mm": ir.mm, "dd": ir.dd, "ii": ir.ii}
     for f, s in ps:
         p = CLS[f](s)
@@ -274,7 +274,7 @@ def run(ctx: Ctx):
         if name == "strings_in":
             for o in impl:
                 ctx.count("strings_in_" + (o if o.startswith("err") or o in ("no-class",) else "accepted"))
-    ctx.exhaustive = not ctx.quick
+    ctx.exhaustive = False   # regular periods are enumerated completely in the thorough tier, days are thinned
     oracle(ctx)
 
 
